@@ -129,3 +129,17 @@ Theorem C12_write_ref : forall h, wf_opt h ->
     bytes_of_items its = ref_opt_bytes h [] 0 /\ n = Z.of_nat (length (ref_opt_bytes h [] 0)).
 Proof. exact write_ref. Qed.
 Print Assumptions C12_write_ref.
+
+(* ... and writePESHeader emits the reference encoding of the whole packet header: start code prefix, stream id,
+   PES_packet_length by the length rule, then (for ids with an optional header) the optional header *)
+Theorem C12_write_ref_header : forall h n, wf_header h -> 0 <= n ->
+  let sid := PESHeader_StreamID h in
+  let L := ref_packet_length sid (ref_opt_len h) n in
+  exists its k, enc_pes_header h n = Ok (its, k) /\ k = Z.of_nat (length (bytes_of_items its)) /\
+    bytes_of_items its =
+      match PESHeader_OptionalHeader h with
+      | Some oh => if lib_has_optional_header sid then ref_pes_bytes sid L oh [] 0 else ref_pes_bytes_noopt sid L
+      | None => ref_pes_bytes_noopt sid L
+      end.
+Proof. exact write_ref_header. Qed.
+Print Assumptions C12_write_ref_header.
